@@ -515,6 +515,7 @@ theorem libTrace_ok (cfg : Cfg) (ds : List Nat) (evs : List Ev) :
 /-- the stream the library assigns to a generator of the seeded family -/
 def famOrigin (cfg : Cfg) : Gen → Origin
   | .env i => .seed (cfg.seed + i)
+  | .noise => .const
   | _ => .seed cfg.seed
 
 /-- the value was read from a generator of the seeded family, whose state came from the seed -/
@@ -579,7 +580,33 @@ theorem construct_run (cfg : Cfg) (st : RngState) :
       inFamily, famOrigin] <;>
     (intro i h1 h2; omega)
 
-theorem reset_step_pre (cfg : Cfg) (st : RngState) (h : PreInv cfg st) :
+theorem learnStart_run_nil (cfg : Cfg) (st : RngState) :
+    (run (learnStartOps cfg) st).2 = [] ∧ deliveries (learnStartOps cfg) st = [] := by
+  cases hn : cfg.noise <;> simp [learnStartOps, hn, run, step, deliveries]
+
+theorem learnStart_run_pre (cfg : Cfg) (st : RngState) (h : PreInv cfg st) :
+    PreInv cfg (run (learnStartOps cfg) st).1 ∧
+    (inFamily cfg .noise = true → ((run (learnStartOps cfg) st).1.gens .noise).origin = .const) := by
+  obtain ⟨h1, h2, h3, h4, h5⟩ := h
+  cases hn : cfg.noise <;>
+    simp [learnStartOps, hn, run, step, PreInv, inFamily, RngState.setGen, h1, h2, h3, h4] <;> exact h5
+
+theorem learnStart_run_good (cfg : Cfg) (st : RngState) (h : SeededInv cfg st) :
+    SeededInv cfg (run (learnStartOps cfg) st).1 := by
+  obtain ⟨h1, h2⟩ := h
+  cases hn : cfg.noise
+  · simp only [learnStartOps, hn, run]; exact ⟨h1, h2⟩
+  all_goals
+    simp only [learnStartOps, hn, run, step, reduceCtorEq, if_false]
+    refine ⟨?_, h2⟩
+    intro g hg
+    simp only [RngState.setGen]
+    by_cases e : g = .noise
+    · simp [e, famOrigin]
+    · simp only [e, if_false]; exact h1 g hg
+
+theorem reset_step_pre (cfg : Cfg) (st : RngState) (h : PreInv cfg st)
+    (hN : inFamily cfg .noise = true → (st.gens .noise).origin = .const) :
     SeededInv cfg (step st (.envReset cfg.nEnvs)).1 := by
   obtain ⟨h1, h2, h3, h4, h5⟩ := h
   refine ⟨?_, ?_⟩
@@ -594,6 +621,7 @@ theorem reset_step_pre (cfg : Cfg) (st : RngState) (h : PreInv cfg st) :
     | actSpace => simpa [step, deliver, famOrigin] using h4
     | obsSpace => simp [inFamily] at hg
     | os => simp [inFamily] at hg
+    | noise => simpa [step, deliver, famOrigin] using hN hg
   · intro i hi
     simp [step, hi]
 
@@ -613,6 +641,7 @@ theorem reset_step_good (cfg : Cfg) (st : RngState) (h : SeededInv cfg st) :
     | actSpace => simpa [step, deliver] using h1 _ hg
     | obsSpace => simp [inFamily] at hg
     | os => simp [inFamily] at hg
+    | noise => simpa [step, deliver] using h1 _ hg
   · intro i hi
     simp [step, hi]
 
@@ -640,6 +669,13 @@ theorem seg_run (cfg : Cfg) (st : RngState) (hst : SeededInv cfg st) (e : Ev) :
     SeededInv cfg (run (segOps cfg e) st).1 ∧ (∀ d, d ∈ (run (segOps cfg e) st).2 → FromSeed cfg d) ∧
     deliveries (segOps cfg e) st = List.replicate (resetCount [e]) (List.replicate cfg.nEnvs none) := by
   cases e with
+  | learnStart =>
+    obtain ⟨n1, n2⟩ := learnStart_run_nil cfg st
+    refine ⟨learnStart_run_good cfg st hst, ?_, ?_⟩
+    · intro d hd
+      simp only [segOps, n1] at hd
+      cases hd
+    · simpa [segOps, resetCount] using n2
   | reset ds =>
     have hg := reset_step_good cfg st hst
     obtain ⟨i1, i2, i3⟩ := fine_run cfg _ _ hg (envDrawOps_fine cfg ds 0)
@@ -694,23 +730,31 @@ theorem libTrace_run (cfg : Cfg) (ds : List Nat) (evs : List Ev) (st : RngState)
       (List.range cfg.nEnvs).map (fun i => some (cfg.seed + i)) ::
         List.replicate (resetCount evs) (List.replicate cfg.nEnvs none) := by
   obtain ⟨c1, c2, c3⟩ := construct_run cfg st
-  have hg := reset_step_pre cfg _ c1
+  obtain ⟨l1, l2⟩ := learnStart_run_pre cfg _ c1
+  obtain ⟨n1, n2⟩ := learnStart_run_nil cfg (run (construct cfg) st).1
+  have hg := reset_step_pre cfg _ l1 l2
   obtain ⟨r1, r2, r3⟩ := fine_run cfg _ _ hg (envDrawOps_fine cfg ds 0)
-  obtain ⟨e1, e2, e3⟩ := events_run cfg evs _ r1
-  have hres : run (segOps cfg (.reset ds)) (run (construct cfg) st).1 =
-      run (envDrawOps cfg 0 ds) (step (run (construct cfg) st).1 (.envReset cfg.nEnvs)).1 := by
-    simp [segOps, run, step]
-  simp only [libTrace, run_append, deliveries_append, hres]
+  have hres : run (firstLearn cfg ds) (run (construct cfg) st).1 =
+      run (envDrawOps cfg 0 ds)
+        (step (run (learnStartOps cfg) (run (construct cfg) st).1).1 (.envReset cfg.nEnvs)).1 := by
+    simp [firstLearn, run_append, n1, segOps, run, step]
+  have hdel : deliveries (firstLearn cfg ds) (run (construct cfg) st).1 =
+      [(List.range cfg.nEnvs).map (fun i => some (cfg.seed + i))] := by
+    simp only [firstLearn, deliveries_append, n2, List.nil_append, segOps, List.cons_append, deliveries, r3,
+      List.append_nil]
+    rw [map_pending_some _ cfg.nEnvs cfg.seed l1.2.2.2.2]
+  have r1' := r1
+  rw [← hres] at r1'
+  obtain ⟨e1, e2, e3⟩ := events_run cfg evs _ r1'
+  simp only [libTrace, run_append, deliveries_append]
   refine ⟨e1, ?_, ?_⟩
   · intro d hd
     rcases List.mem_append.mp hd with hd | hd
     · exact c2 d hd
     · rcases List.mem_append.mp hd with hd | hd
-      · exact r2 d hd
+      · rw [hres] at hd; exact r2 d hd
       · exact e2 d hd
-  · rw [c3, e3]
-    simp only [segOps, List.cons_append, List.nil_append, deliveries, r3, List.append_nil]
-    rw [map_pending_some _ cfg.nEnvs cfg.seed c1.2.2.2.2]
+  · rw [c3, e3, hdel]; rfl
 
 
 /-! ### Generators outside the seeded family are never marked -/
@@ -718,6 +762,7 @@ theorem libTrace_run (cfg : Cfg) (ds : List Nat) (evs : List Ev) (st : RngState)
 /-- operations that only assign generators of the seeded family -/
 def famOp (cfg : Cfg) : Op → Bool
   | .seed g _ => inFamily cfg g
+  | .reset g => inFamily cfg g
   | .envSeed _ _ => true
   | .envReset n => decide (n ≤ cfg.nEnvs)
   | .draw _ _ => true
@@ -744,6 +789,14 @@ theorem outside_stays (cfg : Cfg) (t : List Op) : ∀ (L : Low), t.all (famOp cf
         by_cases e : g = x
         · subst e; rw [h1] at hg; cases hg
         · simp only [e, if_false]; exact h g hg
+    | reset x =>
+      simp only [famOp] at h1
+      by_cases hos : x = .os
+      · simp only [lowStep, hos, if_true]; exact h g hg
+      · simp only [lowStep, hos, if_false]
+        by_cases e : g = x
+        · subst e; rw [h1] at hg; cases hg
+        · simp only [e, if_false]; exact h g hg
     | envSeed s n => simpa [lowStep] using h g hg
     | envReset n =>
       simp only [famOp, decide_eq_true_eq] at h1
@@ -759,8 +812,17 @@ theorem outside_stays (cfg : Cfg) (t : List Op) : ∀ (L : Low), t.all (famOp cf
       | actSpace => simp [inFamily] at hg
       | obsSpace => simpa [lowStep] using h _ hg
       | os => simpa [lowStep] using h _ hg
+      | noise => simpa [lowStep] using h _ hg
     | draw x k => simpa [lowStep] using h g hg
     | discard x k => simpa [lowStep] using h g hg
+
+theorem fine_famOp' (cfg cfg' : Cfg) (t : List Op) (h : t.all (fineOp cfg) = true) : t.all (famOp cfg') = true := by
+  induction t with
+  | nil => rfl
+  | cons op t ih =>
+    simp only [List.all_cons, Bool.and_eq_true] at h ⊢
+    refine ⟨?_, ih h.2⟩
+    cases op <;> simp_all [fineOp, famOp]
 
 theorem fine_famOp (cfg : Cfg) (t : List Op) (h : t.all (fineOp cfg) = true) : t.all (famOp cfg) = true := by
   induction t with
@@ -770,10 +832,13 @@ theorem fine_famOp (cfg : Cfg) (t : List Op) (h : t.all (fineOp cfg) = true) : t
     refine ⟨?_, ih h.2⟩
     cases op <;> simp_all [fineOp, famOp]
 
+theorem learnStartOps_famOp (cfg : Cfg) : (learnStartOps cfg).all (famOp cfg) = true := by
+  cases hn : cfg.noise <;> simp [learnStartOps, hn, famOp, inFamily]
+
 theorem segOps_famOp (cfg : Cfg) (e : Ev) : (segOps cfg e).all (famOp cfg) = true := by
   rw [segOps_eq]
   rw [List.all_append, fine_famOp cfg _ (segTail_fine cfg e), Bool.and_true]
-  cases e <;> simp [famOp]
+  cases e <;> simp [famOp, learnStartOps_famOp]
 
 theorem eventsOps_famOp (cfg : Cfg) (evs : List Ev) : (eventsOps cfg evs).all (famOp cfg) = true := by
   induction evs with
@@ -782,11 +847,27 @@ theorem eventsOps_famOp (cfg : Cfg) (evs : List Ev) : (eventsOps cfg evs).all (f
 
 theorem libTrace_famOp (cfg : Cfg) (ds : List Nat) (evs : List Ev) :
     (libTrace cfg ds evs).all (famOp cfg) = true := by
-  simp only [libTrace, List.all_append, segOps_famOp, eventsOps_famOp, Bool.and_true]
+  simp only [libTrace, firstLearn, List.all_append, segOps_famOp, eventsOps_famOp, learnStartOps_famOp, Bool.and_true]
   cases hc : cfg.cnn <;> simp [construct, hc, famOp, inFamily]
 
 theorem libTrace_outside (cfg : Cfg) (ds : List Nat) (evs : List Ev) (g : Gen) (hg : inFamily cfg g = false) :
     (lowRun Low.bot (libTrace cfg ds evs)).gens g = false :=
   outside_stays cfg _ Low.bot (libTrace_famOp cfg ds evs) (fun _ _ => rfl) g hg
+
+/-! ### Dropping the action-noise reset of `_setup_learn` -/
+
+theorem traceOK_snoc_draw (L : Low) (t : List Op) (g : Gen) (k : Nat) (h : (lowRun L t).gens g = false) :
+    traceOK L (t ++ [.draw g k]) = false := by
+  rw [traceOK_append]
+  simp [traceOK, opOK, h]
+
+/-- `__init__` and the first `env.reset()` without `action_noise.reset()`: the noise state is never assigned -/
+theorem noReset_noise_unmarked (cfg : Cfg) (ds : List Nat) :
+    (lowRun Low.bot (construct cfg ++ segOps cfg (.reset ds))).gens .noise = false := by
+  have hall : (construct cfg ++ segOps cfg (.reset ds)).all (famOp { cfg with noise := .none }) = true := by
+    simp only [List.all_append, segOps, List.cons_append, List.nil_append, List.all_cons,
+      fine_famOp' cfg { cfg with noise := .none } _ (envDrawOps_fine cfg ds 0), Bool.and_true]
+    cases hc : cfg.cnn <;> simp [construct, hc, famOp, inFamily]
+  exact outside_stays { cfg with noise := .none } _ Low.bot hall (fun _ _ => rfl) .noise (by simp [inFamily])
 
 end SB3Verif.Lemmas.Seeding
